@@ -25,6 +25,15 @@ f_addEp = z3.Function('add_Eiso', Pt, Pt, Pt)
 
 
 f_dblE = z3.Function('double_E', Pt, Pt)
+# field operations on the (uninterpreted) inputs, for code that computes with u0 / u1 before mapping them
+f_fsq = z3.Function('fld_square', Fld, Fld)
+f_fneg = z3.Function('fld_neg', Fld, Fld)
+f_fdbl = z3.Function('fld_double', Fld, Fld)
+f_fmul = z3.Function('fld_mul', Fld, Fld, Fld)
+f_fadd = z3.Function('fld_add', Fld, Fld, Fld)
+f_fsub = z3.Function('fld_sub', Fld, Fld, Fld)
+f_fzero = z3.Const('fld_zero', Fld)
+f_fone = z3.Const('fld_one', Fld)
 f_dblEp = z3.Function('double_Eiso', Pt, Pt)
 
 
@@ -78,9 +87,35 @@ def euf_models(proj, sites, base=None):
     def h_ne(ex, st, m, a):
         r = h_eq(ex, st, m, a)
         return r if r is NotImplemented else z3.Not(r)
+    def fld1(fn):
+        def h(ex, st, m, a):
+            x = deref(ex, st, a[0])
+            if not (isinstance(x, GE) and x.ty == base):
+                return NotImplemented
+            ex.store(st, a[0], GE(base, [fn(x.c[0])]))
+            return UNIT
+        return h
+
+    def fld2(fn):
+        def h(ex, st, m, a):
+            x, y = deref(ex, st, a[0]), deref(ex, st, a[1])
+            if not (isinstance(x, GE) and isinstance(y, GE) and x.ty == base):
+                return NotImplemented
+            ex.store(st, a[0], GE(base, [fn(x.c[0], y.c[0])]))
+            return UNIT
+        return h
+
+    def h_fis_zero(ex, st, m, a):
+        x = deref(ex, st, a[0])
+        return (x.c[0] == f_fzero) if isinstance(x, GE) and x.ty == base else NotImplemented
     pp = P.replace('::', r'::')
     bb = (base or 'NOBASE').replace('::', r'::')
+    FF = r'<' + bb + r' as (?:ff::)?Field>::'
     return [
+        (FF + 'square', fld1(f_fsq)), (FF + 'negate', fld1(f_fneg)), (FF + 'double', fld1(f_fdbl)),
+        (FF + 'mul_assign', fld2(f_fmul)), (FF + 'add_assign', fld2(f_fadd)), (FF + 'sub_assign', fld2(f_fsub)),
+        (FF + 'is_zero', h_fis_zero), (FF + 'zero', lambda ex, st, m, a: GE(base, [f_fzero])), (FF + 'one', lambda ex, st, m, a: GE(base, [f_fone])),
+        (r'<' + bb + r' as Clone>::clone', lambda ex, st, m, a: deref(ex, st, a[0])),
         (r'<' + pp + r' as (?:bls12_381::)?(?:osswu_map::)?OSSWUMap>::osswu_map', h_sswu),
         (r'<' + pp + r' as (?:bls12_381::)?(?:isogeny::)?IsogenyMap>::isogeny_map', h_iso),
         (r'<' + pp + r' as (?:bls12_381::)?(?:cofactor::)?ClearH>::clear_h', h_clr),
@@ -108,94 +143,100 @@ def run(ctx):
                        'symbolic curve coefficient a (validity of each add call site on the curve its operands live on); '
                        'native replay of counterexamples in dev and release')
     findings = []
-    for gname, proj, base, leaf in [('G1', 'ec::g1::G1', 'fq::Fq', r'fq::Fq'), ('G2', 'ec::g2::G2', 'fq2::Fq2', r'fq2::Fq2')]:
-        sites = []
-        ex = C.new_executor(ctx, euf_models(proj, sites, base), generics_hint={'map_to_curve': {'PtT': proj}, 'map2_to_curve': {'PtT': proj}},
-                            assoc_types={'<%s as CurveProjective>::Base' % proj: base})
-        u0, u1 = z3.Const('u0', Fld), z3.Const('u1', Fld)
+    def _symbolic():
+        for gname, proj, base, leaf in [('G1', 'ec::g1::G1', 'fq::Fq', r'fq::Fq'), ('G2', 'ec::g2::G2', 'fq2::Fq2', r'fq2::Fq2')]:
+            sites = []
+            ex = C.new_executor(ctx, euf_models(proj, sites, base), generics_hint={'map_to_curve': {'PtT': proj}, 'map2_to_curve': {'PtT': proj}},
+                                assoc_types={'<%s as CurveProjective>::Base' % proj: base})
+            u0, u1 = z3.Const('u0', Fld), z3.Const('u1', Fld)
+            st = State()
+            r0 = ex.alloc(st, GE(base, [u0]))
+            res = ex.call(st, '<%s as map_to_curve::MapToCurve<%s>>::map_to_curve' % (proj, proj), [r0])
+            chk.must_unsat('%s: map_to_curve(u) = clear_h(iso(sswu(u)))' % gname, res.c[0] != f_clr(f_iso(f_sswu(u0))), group='composition')
+            n1 = len(sites)
+            st = State()
+            r0, r1 = ex.alloc(st, GE(base, [u0])), ex.alloc(st, GE(base, [u1]))
+            res2 = ex.call(st, '<%s as map_to_curve::MapToCurve<%s>>::map2_to_curve' % (proj, proj), [r0, r1])
+            s0, s1 = f_sswu(u0), f_sswu(u1)
+            hom = z3.And(f_iso(f_addEp(s0, s1)) == f_addE(f_iso(s0), f_iso(s1)),        # C16 (homomorphism), instantiated at this call
+                         f_dblE(f_iso(s0)) == f_addE(f_iso(s0), f_iso(s0)), f_dblE(f_iso(s1)) == f_addE(f_iso(s1), f_iso(s1)),      # C01: doubling on E = P + P
+                         f_iso(f_dblEp(s0)) == f_addE(f_iso(s0), f_iso(s0)), f_iso(f_dblEp(s1)) == f_addE(f_iso(s1), f_iso(s1)))
+            chk.must_unsat('%s: map2_to_curve(u0,u1) = clear_h(iso(sswu(u0)) + iso(sswu(u1))) modulo iso homomorphism' % gname,
+                           z3.And(hom, res2.c[0] != f_clr(f_addE(f_iso(s0), f_iso(s1)))), group='composition')
+            chk.must_sat('%s: composition obligation is not vacuous' % gname, z3.And(hom, res2.c[0] == f_clr(f_addE(f_iso(s0), f_iso(s1)))))
+            for b in [x for x in sites if x[0] not in ('add', 'double')]:
+                findings.append((gname, 'typing', b[0]))
+            adds = [s for s in sites[n1:] if s[0] in ('add', 'double')]
+            bad = [s for s in sites if s[0] not in ('add', 'double')]
+            chk.extra[gname + '_group_op_call_sites'] = [{'op': s[0], 'curve': s[1], 'lhs': str(s[2]), 'rhs': str(s[3]), 'path_condition': str(s[4])[:120]} for s in adds]
+            chk.panic_obligations(ex, gname + '.map_to_curve')
+            chk.add_executor(ex)
+            # ---- validity of add_assign on a curve with coefficient a  (real MIR, ring domain)
+            exr, D = C.ring_executor(ctx, ty_pat=leaf, name=gname + 'F')
+            mkf = (lambda n: FE(base, z3.Int(n)))
+            X1, Y1, Z1, X2, Y2, Z2 = [mkf(n) for n in ('X1', 'Y1', 'Z1', 'X2', 'Y2', 'Z2')]
+            a = z3.Int('a')
+            st = State()
+            rp, rq = exr.alloc(st, Agg(proj, (X1, Y1, Z1))), exr.alloc(st, Agg(proj, (X2, Y2, Z2)))
+            exr.call(st, '<%s as CurveProjective>::add_assign' % proj, [rp, rq])
+            out = exr.load(st, rp)
+            X3, Y3, Z3 = [f.e for f in out.f]
+            Z1Z1, Z2Z2 = Z1.e * Z1.e, Z2.e * Z2.e
+            U1, U2 = X1.e * Z2Z2, X2.e * Z1Z1
+            S1, S2 = Y1.e * Z2.e * Z2Z2, Y2.e * Z1.e * Z1Z1
+            nz = z3.And(z3.Not(D.iszero(Z1.e)), z3.Not(D.iszero(Z2.e)))
+            same_pt = z3.And(nz, D.iszero(U1 - U2), D.iszero(S1 - S2))
+            dx, dy, dz = jac_double_spec(X1.e, Y1.e, Z1.e, a)
+            differs = z3.Or(X3 != dx, Y3 != dy, Z3 != dz)
+            # (i) with a = 0 the equal-operands branch is the tangent law
+            chk.must_unsat('%s.add_assign equal-operands branch = tangent law when a = 0' % gname,
+                           z3.And(same_pt, a == 0, differs), group='add-validity')
+            # (ii) chord branch is independent of a (same identities as C01): X3*Z^2-form identities
+            H = U2 - U1
+            chord = z3.And(nz, z3.Not(z3.And(D.iszero(U1 - U2), D.iszero(S1 - S2))))
+            rr = 2 * (S2 - S1)
+            I = 4 * H * H
+            J = H * I
+            V = U1 * I
+            cx = rr * rr - J - 2 * V
+            cy = rr * (V - cx) - 2 * S1 * J
+            cz = 2 * Z1.e * Z2.e * H
+            chk.must_unsat('%s.add_assign chord branch = add-2007-bl (no dependence on a)' % gname,
+                           z3.And(chord, z3.Or(X3 != cx, Y3 != cy, Z3 != cz)), group='add-validity')
+            on_Eiso = [s_ for s_ in adds if s_[1] == 'Eiso']
+            key = 'map2_to_curve:group-op-on-isogenous-curve:' + gname
+            if on_Eiso:
+                # (iii) a group operation on E' (a' != 0): add_assign's equal-operands branch / double() use the a = 0 doubling, which is
+                #       the tangent law only when a = 0 ...
+                name = '%s: add_assign/double on the isogenous curve (a != 0) is the tangent law for equal operands' % gname
+                chk.must_unsat(name, z3.And(same_pt, a != 0, differs), group='add-validity-Eiso')
+                # ... so every such call site needs operands that are PROVABLY distinct under its path condition (SSWU is not injective:
+                #     distinct inputs may have equal images, so u0 != u1 proves nothing)
+                for k_, s_ in enumerate(on_Eiso):
+                    pcs = z3.And(*[C.mk(p_) for p_ in s_[4]]) if s_[4] else z3.BoolVal(True)
+                    chk.must_unsat('%s: operands of %s #%d on the isogenous curve are provably distinct under the path condition' % (gname, s_[0], k_),
+                                   z3.And(pcs, s_[2] == s_[3]), group='add-validity-Eiso')
+                findings.append((gname, 'op-on-Eiso', name, key))
+            chk.add_executor(exr)
+        # ground: a' != 0 for both isogenous curves (read from the crate constants)
+        ex0 = C.new_executor(ctx, [])
         st = State()
-        r0 = ex.alloc(st, GE(base, [u0]))
-        res = ex.call(st, '<%s as map_to_curve::MapToCurve<%s>>::map_to_curve' % (proj, proj), [r0])
-        chk.must_unsat('%s: map_to_curve(u) = clear_h(iso(sswu(u)))' % gname, res.c[0] != f_clr(f_iso(f_sswu(u0))), group='composition')
-        n1 = len(sites)
-        st = State()
-        r0, r1 = ex.alloc(st, GE(base, [u0])), ex.alloc(st, GE(base, [u1]))
-        res2 = ex.call(st, '<%s as map_to_curve::MapToCurve<%s>>::map2_to_curve' % (proj, proj), [r0, r1])
-        s0, s1 = f_sswu(u0), f_sswu(u1)
-        hom = z3.And(f_iso(f_addEp(s0, s1)) == f_addE(f_iso(s0), f_iso(s1)),        # C16 (homomorphism), instantiated at this call
-                     f_dblE(f_iso(s0)) == f_addE(f_iso(s0), f_iso(s0)), f_dblE(f_iso(s1)) == f_addE(f_iso(s1), f_iso(s1)),      # C01: doubling on E = P + P
-                     f_iso(f_dblEp(s0)) == f_addE(f_iso(s0), f_iso(s0)), f_iso(f_dblEp(s1)) == f_addE(f_iso(s1), f_iso(s1)))
-        chk.must_unsat('%s: map2_to_curve(u0,u1) = clear_h(iso(sswu(u0)) + iso(sswu(u1))) modulo iso homomorphism' % gname,
-                       z3.And(hom, res2.c[0] != f_clr(f_addE(f_iso(s0), f_iso(s1)))), group='composition')
-        chk.must_sat('%s: composition obligation is not vacuous' % gname, z3.And(hom, res2.c[0] == f_clr(f_addE(f_iso(s0), f_iso(s1)))))
-        for b in [x for x in sites if x[0] not in ('add', 'double')]:
-            findings.append((gname, 'typing', b[0]))
-        adds = [s for s in sites[n1:] if s[0] in ('add', 'double')]
-        bad = [s for s in sites if s[0] not in ('add', 'double')]
-        chk.extra[gname + '_group_op_call_sites'] = [{'op': s[0], 'curve': s[1], 'lhs': str(s[2]), 'rhs': str(s[3]), 'path_condition': str(s[4])[:120]} for s in adds]
-        chk.panic_obligations(ex, gname + '.map_to_curve')
-        chk.add_executor(ex)
-        # ---- validity of add_assign on a curve with coefficient a  (real MIR, ring domain)
-        exr, D = C.ring_executor(ctx, ty_pat=leaf, name=gname + 'F')
-        mkf = (lambda n: FE(base, z3.Int(n)))
-        X1, Y1, Z1, X2, Y2, Z2 = [mkf(n) for n in ('X1', 'Y1', 'Z1', 'X2', 'Y2', 'Z2')]
-        a = z3.Int('a')
-        st = State()
-        rp, rq = exr.alloc(st, Agg(proj, (X1, Y1, Z1))), exr.alloc(st, Agg(proj, (X2, Y2, Z2)))
-        exr.call(st, '<%s as CurveProjective>::add_assign' % proj, [rp, rq])
-        out = exr.load(st, rp)
-        X3, Y3, Z3 = [f.e for f in out.f]
-        Z1Z1, Z2Z2 = Z1.e * Z1.e, Z2.e * Z2.e
-        U1, U2 = X1.e * Z2Z2, X2.e * Z1Z1
-        S1, S2 = Y1.e * Z2.e * Z2Z2, Y2.e * Z1.e * Z1Z1
-        nz = z3.And(z3.Not(D.iszero(Z1.e)), z3.Not(D.iszero(Z2.e)))
-        same_pt = z3.And(nz, D.iszero(U1 - U2), D.iszero(S1 - S2))
-        dx, dy, dz = jac_double_spec(X1.e, Y1.e, Z1.e, a)
-        differs = z3.Or(X3 != dx, Y3 != dy, Z3 != dz)
-        # (i) with a = 0 the equal-operands branch is the tangent law
-        chk.must_unsat('%s.add_assign equal-operands branch = tangent law when a = 0' % gname,
-                       z3.And(same_pt, a == 0, differs), group='add-validity')
-        # (ii) chord branch is independent of a (same identities as C01): X3*Z^2-form identities
-        H = U2 - U1
-        chord = z3.And(nz, z3.Not(z3.And(D.iszero(U1 - U2), D.iszero(S1 - S2))))
-        rr = 2 * (S2 - S1)
-        I = 4 * H * H
-        J = H * I
-        V = U1 * I
-        cx = rr * rr - J - 2 * V
-        cy = rr * (V - cx) - 2 * S1 * J
-        cz = 2 * Z1.e * Z2.e * H
-        chk.must_unsat('%s.add_assign chord branch = add-2007-bl (no dependence on a)' % gname,
-                       z3.And(chord, z3.Or(X3 != cx, Y3 != cy, Z3 != cz)), group='add-validity')
-        on_Eiso = [s_ for s_ in adds if s_[1] == 'Eiso']
-        key = 'map2_to_curve:group-op-on-isogenous-curve:' + gname
-        if on_Eiso:
-            # (iii) a group operation on E' (a' != 0): add_assign's equal-operands branch / double() use the a = 0 doubling, which is
-            #       the tangent law only when a = 0 ...
-            name = '%s: add_assign/double on the isogenous curve (a != 0) is the tangent law for equal operands' % gname
-            chk.must_unsat(name, z3.And(same_pt, a != 0, differs), group='add-validity-Eiso')
-            # ... so every such call site needs operands that are PROVABLY distinct under its path condition (SSWU is not injective:
-            #     distinct inputs may have equal images, so u0 != u1 proves nothing)
-            for k_, s_ in enumerate(on_Eiso):
-                pcs = z3.And(*[C.mk(p_) for p_ in s_[4]]) if s_[4] else z3.BoolVal(True)
-                chk.must_unsat('%s: operands of %s #%d on the isogenous curve are provably distinct under the path condition' % (gname, s_[0], k_),
-                               z3.And(pcs, s_[2] == s_[3]), group='add-validity-Eiso')
-            findings.append((gname, 'op-on-Eiso', name, key))
-        chk.add_executor(exr)
-    # ground: a' != 0 for both isogenous curves (read from the crate constants)
-    ex0 = C.new_executor(ctx, [])
-    st = State()
-    from mirsym.models import _const_limbs
-    a1 = ex0.named_const(st, 'osswu_map::g1::ELLP_A')
-    a2 = ex0.named_const(st, 'osswu_map::g2::ELLP_A')
-    a1v = ref.from_mont(_int(_const_limbs(a1)))
-    a2v = tuple(ref.from_mont(_int(_const_limbs(x))) for x in a2.f)
-    chk.ground("E1' coefficient a' (ELLP_A) equals the RFC value and is non-zero", a1v == ref.E1P_A and a1v != 0, hex(a1v))
-    chk.ground("E2' coefficient a' (ELLP_A) equals the RFC value 240*I and is non-zero", a2v == ref.E2P_A and a2v != (0, 0), str(a2v))
-    chk.bounds = {'loops': 'none', 'inputs': 'all u, (u0,u1): uninterpreted field elements; all Jacobian triples and every curve coefficient a for the add analysis'}
-    chk.assumptions += ['osswu_map returns a point of E\' (C15), isogeny_map is the isogeny E\'->E and a homomorphism (C16), clear_h = [h_eff] (C17)',
-                        'add_assign on E (a = 0) is the group law (C01)']
-    chk.trusted += ['rustc MIR printer', 'mirsym', 'z3', 'native replay binary built from /repo with feature verif']
+        from mirsym.models import _const_limbs
+        a1 = ex0.named_const(st, 'osswu_map::g1::ELLP_A')
+        a2 = ex0.named_const(st, 'osswu_map::g2::ELLP_A')
+        a1v = ref.from_mont(_int(_const_limbs(a1)))
+        a2v = tuple(ref.from_mont(_int(_const_limbs(x))) for x in a2.f)
+        chk.ground("E1' coefficient a' (ELLP_A) equals the RFC value and is non-zero", a1v == ref.E1P_A and a1v != 0, hex(a1v))
+        chk.ground("E2' coefficient a' (ELLP_A) equals the RFC value 240*I and is non-zero", a2v == ref.E2P_A and a2v != (0, 0), str(a2v))
+        chk.bounds = {'loops': 'none', 'inputs': 'all u, (u0,u1): uninterpreted field elements; all Jacobian triples and every curve coefficient a for the add analysis'}
+        chk.assumptions += ['osswu_map returns a point of E\' (C15), isogeny_map is the isogeny E\'->E and a homomorphism (C16), clear_h = [h_eff] (C17)',
+                            'add_assign on E (a = 0) is the group law (C01)']
+        chk.trusted += ['rustc MIR printer', 'mirsym', 'z3', 'native replay binary built from /repo with feature verif']
+    try:
+        _symbolic()
+    except Inconclusive as e_:
+        # the native differential below still runs: it is the replay target for whatever the symbolic part could not encode
+        ctx.inconclusive('encoder: %s' % e_)
     chk.discharge()
 
     # ---- native differential replay (always): special pairs + seeded random ones, both profiles
